@@ -250,7 +250,7 @@ func (fc *FnCtx) builtinCopy(st *State, call *ast.CallExpr) []Val {
 		srcAt = func(i string) string { return app("select", sa, fc.addIdx(app("s-off", src.T), i)) }
 	}
 	n := fc.define("copyn", I, ite(fc.ltIdx(app("s-len", dst.T), srcLen), app("s-len", dst.T), srcLen))
-	fc.checkFrameElem(st, dst, fc.idxLit(0), call.Pos())
+	fc.checkFrameRange(st, dst, n, call.Pos())
 	da := app("s-arr", dst.T)
 	newInner := fc.fresh("copied", fmt.Sprintf("(Array %s %s)", I, es))
 	oldInner := app("select", E, da)
